@@ -17,7 +17,7 @@ demo() {
 demo; r0=$?
 git apply "$sd/patch.diff" 2>/dev/null || git apply --3way "$sd/patch.diff" || { echo "RESULT $wt $x: patch does not apply on current HEAD"; git checkout -q -- .; exit 1; }
 go build ./... || { echo "RESULT $wt $x: build fails"; git checkout -q -- .; exit 1; }
-go test -vet=off -count=1 ./... > "$sd/.suite.log" 2>&1; rs=$?
+go test -vet=off -count=1 $(go list ./... | grep -v /SEED/) > "$sd/.suite.log" 2>&1; rs=$?
 demo; r1=$?
 git diff > "$sd/patch.rebased.diff"
 git reset -q; git checkout -q -- .
